@@ -430,6 +430,8 @@ def correspond(ctx):
         # The model knows rows, not array objects: these cases are judged on the implementation (`reused_ok` + the ordinary
         # three-way comparison of the last batch)
         reused = list(S_BL.gen_reused_buffer_cases(ctx))
+        # output terms taller than 1 under a clipping implication (drawn last)
+        cs += list(S_BL.gen_tall_term_cases(ctx))
 
         def judge(outs):
             compare(ctx, cs, outs, later, family="more")
@@ -445,7 +447,8 @@ def correspond(ctx):
 def search(ctx):
     import itertools
     for case in itertools.chain(gen_cases(ctx), S_BL.gen_special_history_cases(ctx), S_BL.gen_layout_cases(ctx),
-                                S_BL.gen_no_value_per_row_cases(ctx), S_BL.gen_reused_buffer_cases(ctx)):
+                                S_BL.gen_no_value_per_row_cases(ctx), S_BL.gen_reused_buffer_cases(ctx),
+                                S_BL.gen_tall_term_cases(ctx)):
         ok, d = oracle(case)
         if not ok:
             return [(case, d)]
